@@ -117,12 +117,12 @@ package query
 //@   ensures evalEpoch == old(evalEpoch) + 1
 //@   ensures result1 == nil ==> result0 != nil
 //@   modifies lastEval, evalEpoch
-//@   modifies * except F:query.View. E:query.Record# E:query.Cell# E:value.Primary# E:*query.SortValue# E:query.SortValues# F:query.SortValue. E:int# F:parser. F:value. F:query.ReferenceScope. F:query.Transaction. F:option.Flags. C: E:bool#
+//@   modifies * except F:query.View. E:query.Record# E:query.Cell# E:value.Primary# E:*query.SortValue# E:query.SortValues# F:query.SortValue. E:int# F:parser. F:value. F:query.ReferenceScope. F:query.Transaction. F:option.Flags. C: E:bool# E:query.BlockScope# F:query.VariableMap.
 //@ func EvalRowValue
 //@   trusted assumed frame of expression evaluation
 //@   ensures evalEpoch > old(evalEpoch)
 //@   modifies evalEpoch, lastEval
-//@   modifies * except F:query.View. E:query.Record# E:query.Cell# E:*query.SortValue# E:query.SortValues# F:query.SortValue. E:int# F:parser. F:value. F:query.ReferenceScope. F:query.Transaction. F:option.Flags. C: E:bool#
+//@   modifies * except F:query.View. E:query.Record# E:query.Cell# E:*query.SortValue# E:query.SortValues# F:query.SortValue. E:int# F:parser. F:value. F:query.ReferenceScope. F:query.Transaction. F:option.Flags. C: E:bool# E:query.BlockScope# F:query.VariableMap.
 
 // ---------------------------------------------------------------------------------------------
 // C07: OFFSET / LIMIT / sort keys
@@ -445,7 +445,7 @@ package query
 // iff the condition evaluated to TRUE, and no other slot is touched.
 //@ func EvaluateSequentially
 //@   trusted assumed: runs fn(scope', i) once for each row index i of view (on worker goroutines); returns the first error
-//@   modifies * except F:query.View. E:query.Record# E:query.Cell# E:value.Primary# E:*query.SortValue# E:query.SortValues# F:query.SortValue. E:int# F:parser. F:value. F:query.ReferenceScope. F:query.Transaction. F:option.Flags. C: E:bool#
+//@   modifies * except F:query.View. E:query.Record# E:query.Cell# E:value.Primary# E:*query.SortValue# E:query.SortValues# F:query.SortValue. E:int# F:parser. F:value. F:query.ReferenceScope. F:query.Transaction. F:option.Flags. C: E:bool# E:query.BlockScope# F:query.VariableMap.
 
 // number of kept rows among the first k (counting function; its unfolding and monotonicity are stated as axioms)
 //@ spec func rankOf(s []bool, k int) int reads elems(s)
@@ -717,6 +717,12 @@ package query
 //@   ensures !result ==> varEpoch == old(varEpoch) && varServedBy == old(varServedBy)
 //@   modifies varEpoch, varServedBy
 
+//@ func (VariableMap).Add
+//@   trusted assumed ghost model: declares the name in this block unless it is declared there already
+//@   ensures result == nil ==> varDeclared(m, variable.Name) && varValue(m, variable.Name) == val
+//@   ensures result != nil ==> varEpoch == old(varEpoch)
+//@   modifies varEpoch
+
 //@ func (*ReferenceScope).GetVariable
 //@   property C15
 //@   safety
@@ -768,7 +774,9 @@ package query
 //@   ensures [parent-blocks-follow-in-order] forall(k, 0, len(rs.Blocks), result.Blocks[k + 1] == rs.Blocks[k])
 //@   ensures [parent-unchanged] rs.Blocks == old(rs.Blocks) && forall(k, 0, len(rs.Blocks), rs.Blocks[k] == old(rs.Blocks[k]))
 //@   ensures [same-transaction] result.Tx == rs.Tx && result.nodes == nil
+//@   ensures [new-block-is-held] old(blockReleased)[blockId(result.Blocks[0])] && !blockReleased[blockId(result.Blocks[0])] && blockReleased == store(old(blockReleased), blockId(result.Blocks[0]), false) && blockId(result.Blocks[0]) != 0
 //@   loop 1 invariant 0 <= $i && $i <= len(rs.Blocks) && len(blocks) == len(rs.Blocks) + 1 && fresh(blocks) && forall(k, 0, $i, blocks[k + 1] == rs.Blocks[k])
+//@   loop 1 invariant blockId(blocks[0]) != 0 && old(blockReleased)[blockId(blocks[0])] && !blockReleased[blockId(blocks[0])] && blockReleased == store(old(blockReleased), blockId(blocks[0]), false)
 //@   loop 1 modifies blocks[*]
 
 // ---------------------------------------------------------------------------------------------
@@ -802,4 +810,74 @@ package query
 //@   requires tx != nil && swapsStarted == 0
 //@   loop 1 invariant swapsStarted == 0
 //@   loop 2 invariant swapsStarted == 0
+//@   modifies *
+
+// ---------------------------------------------------------------------------------------------
+// C15: lifetime of blocks. A block taken from the pool is released exactly once, by the construct that took it.
+// Ghost: blockReleased[id] says that the block with that identity is back in the pool (identity = its variable map).
+// Code outside the verified subset (statement execution) is assumed to balance its own blocks and leave others alone.
+//@ ghost var blockReleased map[int]bool
+//@ spec def blockId(b BlockScope) int = b.Variables.SyncMap
+//@ func GetBlockScope
+//@   trusted assumed: sync.Pool hands out a block nobody else holds
+//@   ensures old(blockReleased)[blockId(result)] && !blockReleased[blockId(result)] && blockReleased == store(old(blockReleased), blockId(result), false) && blockId(result) != 0
+//@   modifies blockReleased
+//@ func PutBlockScope
+//@   trusted assumed: clears the block and returns it to the pool; releasing a block twice hands it to two owners later
+//@   requires [not-released-twice] !blockReleased[blockId(scope)]
+//@   ensures blockReleased == store(old(blockReleased), blockId(scope), true)
+//@   modifies blockReleased
+
+//@ func (*ReferenceScope).CloseCurrentBlock
+//@   property C15
+//@   safety
+//@   requires rs != nil && len(rs.Blocks) >= 1 && !blockReleased[blockId(rs.Blocks[0])]
+//@   ensures [current-block-released-only] blockReleased == store(old(blockReleased), blockId(rs.Blocks[0]), true)
+//@   modifies blockReleased
+
+//@ func (*Processor).execute
+//@   trusted assumed: statement execution (the interpreter loop, outside the verified subset) releases exactly the blocks it takes itself and never rewrites the block list of an existing scope
+//@   ghostset blockDirty = true
+//@   modifies * except F:query.ReferenceScope. E:query.BlockScope# F:query.VariableMap.
+//@ func NewProcessorWithScope
+//@   trusted assumed: allocates a processor for the given scope
+//@   ensures result != nil && fresh(result) && result.ReferenceScope == scope
+//@   modifies nothing
+
+// the body of a function call works inside the block its caller opened and must not release it
+//@ func (*UserDefinedFunction).execute
+//@   property C15
+//@   requires fn != nil && scope != nil && len(scope.Blocks) >= 1
+//@   ensures [releases-no-block-itself] blockReleased == old(blockReleased)
+//@   modifies * except F:query.ReferenceScope. E:query.BlockScope# F:query.VariableMap.
+
+//@ func (*UserDefinedFunction).Execute
+//@   property C15
+//@   requires fn != nil && scope != nil && forall(k, 0, len(scope.Blocks), !blockReleased[blockId(scope.Blocks[k])])
+//@   ensures [only-releases] forallv(b, int, blockReleased[b] != old(blockReleased[b]) ==> blockReleased[b])
+//@   ensures [at-most-one-block-changes-hands] forallv(b1, int, forallv(b2, int, blockReleased[b1] != old(blockReleased[b1]) && blockReleased[b2] != old(blockReleased[b2]) ==> b1 == b2))
+//@   ensures [callers-blocks-not-released] forall(k, 0, len(scope.Blocks), !blockReleased[blockId(scope.Blocks[k])])
+//@   modifies *
+
+// every iteration of WHILE starts in a cleared block: locals of the previous iteration are gone before the condition
+// is evaluated (ghost flag: set by statement execution, reset by ClearCurrentBlock)
+//@ ghost var blockDirty bool
+//@ func (*ReferenceScope).ClearCurrentBlock
+//@   trusted assumed: empties the maps of the innermost block (sync.Map, outside the subset)
+//@   ghostset blockDirty = false
+//@   modifies nothing
+//@ func (*Processor).NewChildProcessor
+//@   trusted assumed: a processor over a child scope (CreateChild, verified) whose new block is empty
+//@   ghostset blockDirty = false
+//@   ensures result != nil && fresh(result) && result.ReferenceScope != nil && fresh(result.ReferenceScope)
+//@   modifies blockReleased
+//@ func (*Processor).Close
+//@   trusted assumed: releases the processor's current block (CloseCurrentBlock, verified)
+//@   modifies blockReleased
+
+//@ func (*Processor).While
+//@   property C15
+//@   requires proc != nil
+//@   assert after call query.Evaluate: [iteration-starts-in-a-cleared-block] !blockDirty
+//@   ensures [break-ends-the-loop-normally] result1 == nil ==> result0 == Terminate || result0 == Exit || result0 == Return
 //@   modifies *
